@@ -206,11 +206,13 @@ func ruleC05_3(c *Ctx) {
 			continue
 		}
 		nTag++
-		sl, ok := arg.(*ssa.Slice)
-		okS := ok && strip(sl.X) == ssa.Value(key) && sl.Low != nil && sl.High != nil
+		// normalise nested slicing: key[a:][:b] == key[a:a+b]
+		base, lo, hi, okN := normSlice(arg)
+		okS := okN && strip(base) == ssa.Value(key)
 		if okS {
-			o1 := "(" + expr(open) + " + 1)"
-			okS = expr(sl.Low) == o1 && (expr(sl.High) == "("+o1+" + "+expr(closeS)+")" || expr(sl.High) == "("+expr(closeS)+" + "+o1+")")
+			wantLo := sumKey([]string{expr(open)}, 1)
+			wantHi := sumKey([]string{expr(open), expr(closeS)}, 1)
+			okS = lo == wantLo && hi == wantHi
 		}
 		c.check(okS && relative, "Hash: tag substring", c.at(call), "key[o+1 : o+1+c]",
 			"the substring hashed as the tag is "+expr(arg)+", not the bytes strictly between the first '{' and the first '}' after it")
@@ -330,4 +332,78 @@ func ruleC05_4(c *Ctx) {
 		}
 	}
 	_ = strings.TrimSpace
+}
+
+// normSlice flattens nested slice expressions over one base into (base, low, high) where low and high
+// are canonical sums of terms ("t1+t2+…+k"); ok is false when a bound is missing or not a sum.
+func normSlice(v ssa.Value) (base ssa.Value, lo, hi string, ok bool) {
+	type sum struct {
+		terms []string
+		k     int64
+	}
+	var terms func(v ssa.Value) (sum, bool)
+	terms = func(v ssa.Value) (sum, bool) {
+		if k, isK := constInt(v); isK {
+			return sum{nil, k}, true
+		}
+		if bo, isB := v.(*ssa.BinOp); isB && bo.Op == token.ADD {
+			a, ok1 := terms(bo.X)
+			b, ok2 := terms(bo.Y)
+			if ok1 && ok2 {
+				return sum{append(append([]string{}, a.terms...), b.terms...), a.k + b.k}, true
+			}
+		}
+		return sum{[]string{expr(v)}, 0}, true
+	}
+	sl, isSl := v.(*ssa.Slice)
+	if !isSl {
+		return nil, "", "", false
+	}
+	var loS, hiS sum
+	hasHi := false
+	// unwind from the outermost slice inwards
+	var chain []*ssa.Slice
+	cur := ssa.Value(sl)
+	for {
+		s2, isS := cur.(*ssa.Slice)
+		if !isS {
+			break
+		}
+		chain = append(chain, s2)
+		cur = s2.X
+	}
+	base = cur
+	// apply from the innermost outwards
+	for i := len(chain) - 1; i >= 0; i-- {
+		s2 := chain[i]
+		newLo := loS
+		if s2.Low != nil {
+			t, _ := terms(s2.Low)
+			newLo = sum{append(append([]string{}, loS.terms...), t.terms...), loS.k + t.k}
+		}
+		if s2.High != nil {
+			t, _ := terms(s2.High)
+			hiS = sum{append(append([]string{}, loS.terms...), t.terms...), loS.k + t.k}
+			hasHi = true
+		}
+		loS = newLo
+	}
+	if !hasHi {
+		return base, sumKey(loS.terms, loS.k), "", false
+	}
+	return base, sumKey(loS.terms, loS.k), sumKey(hiS.terms, hiS.k), true
+}
+
+func sumKey(terms []string, k int64) string {
+	t := append([]string{}, terms...)
+	sortStrings(t)
+	return strings.Join(t, "+") + fmt.Sprintf("+%d", k)
+}
+
+func sortStrings(s []string) {
+	for i := 1; i < len(s); i++ {
+		for j := i; j > 0 && s[j] < s[j-1]; j-- {
+			s[j], s[j-1] = s[j-1], s[j]
+		}
+	}
 }
